@@ -56,7 +56,8 @@ PID = "C18"
 PROOF_FILES = ["theories/Props/C18.v", "theories/Checker/Kkt.v", "theories/Checker/KktZ.v",
                "theories/Spec/ConvexHull.v", "theories/Proofs/SimplexTrace.v",
                "theories/Proofs/SimplexLine.v", "theories/Proofs/SimplexTriangle.v",
-               "theories/Proofs/SimplexTetra.v", "theories/Proofs/SimplexOrig.v", "theories/Proofs/SimplexOrigFace.v", "theories/Proofs/SimplexLattice.v",
+               "theories/Proofs/SimplexTetra.v", "theories/Proofs/SimplexOrig.v", "theories/Proofs/SimplexOrigCand.v", "theories/Proofs/SimplexOrigFace.v",
+               "theories/Proofs/SimplexOrigTetra.v", "theories/Proofs/SimplexLattice.v",
                "theories/Proofs/SimplexLattice4.v", "theories/Proofs/SimplexRefuted.v"] + \
               [f"theories/Proofs/SimplexLat4{s}{i}.v" for s in "JO" for i in range(9)]
 BUILD_TARGETS = ["theories/Props/C18.vo", "theories/Model/SimplexRun.vo", "theories/Checker/KktZ.vo",
